@@ -320,6 +320,50 @@ def other_member_hint_cases(T, mir):
     return cases
 
 
+def warning_scope_cases(T, mir):
+    """fixed, both tiers: "refused WITH A WARNING unless forced" as a user's program would see it - the warnings of a whole history
+    are recorded in one scope entered before it (no filter re-installed per call), and between the adds the program makes a Cell
+    through the factories (component_factory by name / class, the neuroml.utils wrapper, doc.add("Cell")): the later unforced add to
+    an occupied single-valued member / of an equal list child must still warn.  Independently, every add() of every case and every
+    such factory call must leave warnings.filters (process-global state) exactly as it found it."""
+    several, single, lists = [], [], []
+    for p in mir.order:
+        by = {}
+        for m in mir.members(p):
+            if mir.dt(m) in T.C:
+                by.setdefault(mir.dt(m), []).append(m)
+        for c, ms in sorted(by.items()):
+            (several if len(ms) >= 2 else lists if ms[0]["container"] else single).append((p, c, ms[0], len(ms) >= 2))
+    pres = [[{"how": "factory", "cls": "Cell", "form": "str", "kw": [["id", {"s": "c"}]]}],
+            [{"how": "factory", "cls": "Cell", "form": "class", "kw": [["id", {"s": "c"}]]}],
+            [{"how": "utils", "cls": "Cell", "form": "str", "kw": [["id", {"s": "c"}]]}],
+            [{"how": "add", "cls": "Cell", "form": "str", "kw": [["id", {"s": "c"}]]}],
+            [{"how": "add", "cls": "Cell", "form": "class", "kw": [["id", {"s": "c"}]]}]] if "Cell" in T.C else []
+    picks = [x for x in several if not x[2]["container"]][:2] + single[:2] + lists[:1] + [x for x in lists if x[0] == "Projection"][:1]
+    cases = []
+    for p, c, m, multi in picks:
+        a, variants = one_member_variants(T, c)
+        b = variants[0][1] if variants else a
+        hint = m["name"] if multi else None
+
+        def call(tree, force, mark, pre=None):
+            d = {"child": {"kind": "obj", "tree": tree}, "hint": hint, "force": force, "validate": False, "mark": "warning-scope:" + mark}
+            if pre:
+                d["pre"] = pre
+            return d
+        for pre in pres:
+            if m["container"]:
+                calls = [call(a, False, "absent"), call(a, False, "equal-present,after-factory", pre), call(a, True, "equal-present,forced"),
+                         call(a, False, "equal-present")]
+            else:
+                calls = [call(a, False, "free"), call(b, False, "occupied,after-factory", pre), call(b, True, "occupied,forced"),
+                         call(a, False, "occupied")]
+            cases.append({"enabled": False, "one_warning_scope": True, "parent": {"cls": p, "kw": []}, "calls": calls})
+            cases.append({"enabled": False, "one_warning_scope": True, "parent": {"cls": p, "kw": []},
+                          "calls": [dict(calls[0], pre=pre)] + [dict(x, pre=None) for x in calls[1:]]})
+    return cases
+
+
 def near_hint_cases(T, mir):
     """fixed, both tiers: for every pair with >= 2 candidates and every candidate name c, hints that CONTAIN or resemble c without
     being it - c+' ', ' '+c, 'x'+c, c+'x', '<Parent>.'+c, c.upper(), c[:-1], and c1+c2, c1+','+c2, c1+' '+c2 for two candidates -
@@ -547,6 +591,12 @@ def predicate(ck, sv, mir, case, res, enabled):
 
         if not r.get("switch_unchanged", True):
             bad("C09:add-changes-the-global-switch", "add() left neuroml.build_time_validation.ENABLED changed")
+        ck.tally("warnings.filters-compared")
+        if r.get("filters_changed") or r.get("pre_filters_changed"):
+            bad("C10:call-changes-warnings-filters", "%s left the process-wide warnings.filters changed (%s): later refusals of add() "
+                "can lose their warning" % ("add()" if r.get("filters_changed") else "making a %s through the factory (%s)"
+                                            % (call["pre"][0]["cls"], call["pre"][0]["how"]),
+                                            (r.get("filters_changed") or r.get("pre_filters_changed"))[:2]), expected="warnings.filters unchanged")
         if ch["kind"] == "falsy":
             ck.count(1)
             ck.tally("call:falsy")
@@ -847,6 +897,9 @@ def run(ck):
     ck.extra["related_type_only_pairs"] = {"ancestor": sum(1 for x in related_type_pairs(mir) if x[3] == "ancestor"),
                                            "descendant": sum(1 for x in related_type_pairs(mir) if x[3] == "descendant")}
     fixed_matrix.extend(related)
+    scoped = warning_scope_cases(T, mir)
+    ck.extra["warning_scope_histories"] = len(scoped)
+    fixed_matrix.extend(scoped)
     near = near_hint_cases(T, mir)
     ck.extra["hint_resembles_candidate_histories"] = len(near)
     fixed_matrix.extend(near)
